@@ -72,7 +72,8 @@ class AuthClientDriver:
         if name == 'Agree':
             return b'AGREE_UNIX_FD'
         if name == 'Ok':
-            return {'valid': b'OK 1234deadbeef', 'nothex': b'OK xyz', 'missing': b'OK'}[args[0]]
+            return {'valid': b'OK 1234deadbeef', 'nothex': b'OK xyz', 'missing': b'OK', 'spaced': b'OK 1234 deadbeef',
+                    'odd': b'OK 1234dea', 'tabbed': b'OK 12\t34'}[args[0]]
         if name == 'Data':
             return b'DATA ' + binascii.hexlify(b'ctx 1 5ea1ed') if args[0] == 'challenge' else b'DATA zz'
         if name == 'Unknown':
@@ -265,7 +266,7 @@ def rand_action(rng):
     if r < 0.42:
         return ('ErrorLine', ())
     if r < 0.55:
-        return ('Ok', (rng.choice(['valid', 'valid', 'nothex', 'missing']),))
+        return ('Ok', (rng.choice(['valid', 'valid', 'valid', 'nothex', 'missing', 'spaced', 'odd', 'tabbed']),))
     if r < 0.68:
         return ('Agree', ())
     if r < 0.9:
